@@ -39,7 +39,7 @@ for _c, _k in _why.items():
 PROPS["C16"] = dict(
     driver="params",
     props_file="Props/C16.v",
-    coq_targets=["Params/Check.vo"],
+    coq_targets=["Params/Check.vo", "Params/Proofs.vo", "Params/Sound.vo"],
     check_module="Params.Check",
     check_fn="check_case",
     translators=[dict(driver="params", args=["defaults"], out="Gen/ParamsDefaults.v")],
